@@ -13,6 +13,8 @@ package swarm
 import (
 	"context"
 	"errors"
+	"fmt"
+	"net"
 	"runtime"
 	"sync"
 	"testing"
@@ -110,6 +112,60 @@ func (c *c04FakeConn) OpenStream(context.Context) (network.MuxedStream, error) {
 	return s, nil
 }
 
+// a transport whose Listen takes a while and whose listeners only record Close
+type c04FakeListener struct {
+	addr    ma.Multiaddr
+	mu      sync.Mutex
+	closed  bool
+	closeCh chan struct{}
+}
+
+func (l *c04FakeListener) Accept() (transport.CapableConn, error) {
+	<-l.closeCh
+	return nil, transport.ErrListenerClosed
+}
+func (l *c04FakeListener) Close() error {
+	l.mu.Lock()
+	was := l.closed
+	l.closed = true
+	l.mu.Unlock()
+	if !was {
+		close(l.closeCh)
+	}
+	return nil
+}
+func (l *c04FakeListener) Addr() net.Addr          { return &net.TCPAddr{IP: net.IPv4(127, 0, 0, 1), Port: 1} }
+func (l *c04FakeListener) Multiaddr() ma.Multiaddr { return l.addr }
+func (l *c04FakeListener) isClosed() bool          { l.mu.Lock(); defer l.mu.Unlock(); return l.closed }
+
+type c04FakeTpt struct {
+	transport.Transport
+	mu        sync.Mutex
+	listeners []*c04FakeListener
+	delays    []time.Duration
+}
+
+func (f *c04FakeTpt) CanDial(ma.Multiaddr) bool { return false }
+func (f *c04FakeTpt) Protocols() []int          { return []int{ma.P_TCP} }
+func (f *c04FakeTpt) Proxy() bool               { return false }
+func (f *c04FakeTpt) Close() error              { return nil }
+func (f *c04FakeTpt) Listen(a ma.Multiaddr) (transport.Listener, error) {
+	f.mu.Lock()
+	i := len(f.listeners)
+	l := &c04FakeListener{addr: a, closeCh: make(chan struct{})}
+	f.listeners = append(f.listeners, l)
+	var d time.Duration
+	if i < len(f.delays) {
+		d = f.delays[i]
+	}
+	f.mu.Unlock()
+	// the transport is listening; the swarm may be closed before it registers the listener
+	if d > 0 {
+		time.Sleep(d)
+	}
+	return l, nil
+}
+
 func c04Yield(r *verifh.Rand) {
 	switch r.Intn(4) {
 	case 0:
@@ -153,6 +209,19 @@ func c04CloseCase(t *testing.T, out *verifh.Out, r *verifh.Rand) {
 	if err != nil {
 		t.Fatal(err)
 	}
+	ftpt := &c04FakeTpt{}
+	if err := sw.AddTransport(ftpt); err != nil {
+		t.Fatal(err)
+	}
+	nlisten := r.Intn(4)
+	for i := 0; i < nlisten; i++ {
+		var d time.Duration
+		if r.Chance(2, 3) {
+			d = time.Duration(r.Intn(1500)) * time.Microsecond
+		}
+		ftpt.delays = append(ftpt.delays, d)
+	}
+	listenOK := make([]int64, nlisten)
 	nconn := 1 + r.Intn(5)
 	obs := make([]c04ConnObs, nconn)
 	var wg sync.WaitGroup
@@ -213,6 +282,18 @@ func c04CloseCase(t *testing.T, out *verifh.Out, r *verifh.Rand) {
 				c.Close()
 			}
 			swg.Wait()
+		}(i)
+	}
+	for i := 0; i < nlisten; i++ {
+		lr := r.Fork()
+		wg.Add(1)
+		go func(i int) {
+			defer wg.Done()
+			c04Yield(lr)
+			a := ma.StringCast(fmt.Sprintf("/ip4/127.0.0.1/tcp/%d", 2000+i))
+			if err := sw.AddListenAddr(a); err == nil {
+				listenOK[i] = 1
+			}
 		}(i)
 	}
 	wg.Add(1)
@@ -285,7 +366,36 @@ func c04CloseCase(t *testing.T, out *verifh.Out, r *verifh.Rand) {
 			out.Cover("close.conn_refused")
 		}
 	}
+	// listeners: the fake transport records every listener it created, by address
+	line = append(line, int64(nlisten))
+	for i := 0; i < nlisten; i++ {
+		want := fmt.Sprintf("/ip4/127.0.0.1/tcp/%d", 2000+i)
+		closed := int64(2) // Listen was never reached (swarm already closed: no transport)
+		ftpt.mu.Lock()
+		for _, l := range ftpt.listeners {
+			if l.addr.String() == want {
+				closed = 0
+				if l.isClosed() {
+					closed = 1
+				}
+			}
+		}
+		ftpt.mu.Unlock()
+		if closed == 2 {
+			// no listener was ever created for this attempt: nothing to release
+			line = append(line, 0, 1)
+			out.Cover("close.listen_refused_before_listen")
+			continue
+		}
+		line = append(line, listenOK[i], closed)
+		if listenOK[i] == 1 {
+			out.Cover("close.listener_registered")
+		} else {
+			out.Cover("close.listener_refused_after_listen")
+		}
+	}
 	left := int64(len(sw.Conns()))
+	lleft := int64(len(sw.ListenAddresses()))
 	var uc, us int64
 	rm.ViewSystem(func(s network.ResourceScope) error {
 		st := s.Stat()
@@ -293,7 +403,7 @@ func c04CloseCase(t *testing.T, out *verifh.Out, r *verifh.Rand) {
 		us = int64(st.NumStreamsInbound + st.NumStreamsOutbound)
 		return nil
 	})
-	line = append(line, left, uc, us)
+	line = append(line, left, lleft, uc, us)
 	out.Cover("close.cases")
 	out.Case(line)
 }
